@@ -41,6 +41,7 @@ fn main() {
     let code = match cmd.as_str() {
         "record-sessions" => sessions::record(&a),
         "replay-sessions" => sessions::replay(&a),
+        "stress" => sessions::stress(&a),
         "record-conn" => connrec::record(&a),
         "replay-conn" => connrec::replay(&a),
         "truncate" => image::truncate(&a),
